@@ -205,7 +205,7 @@ class Tracer(object):
             raise TracerBroken("work bound exceeded: more than %d events" % self.max_events)
         if self.solver is not None:
             ev["sc"] = self._scalars()
-            if self.snap == "full":
+            if self.snap == "full" or (self.snap == "scalars" and ev["ev"] in ("finish", "abort")):
                 ev["snap"] = self._snapshot()
         self.events.append(ev)
 
@@ -285,9 +285,10 @@ class Tracer(object):
         self.fmap0 = sorted(solver._field_map.keys())
         self.has_prompt = solver._prompt is not None
 
-    def run_solve(self, form_names, field_names=()):
+    def run_solve(self, form_names, field_names=(), solve_fn=None):
         """calls solver.solve and emits start / finish / abort events; returns (solved|None, exception|None)"""
         s = self.solver
+        solve = (lambda *a, **k: solve_fn(s, *a, **k)) if solve_fn is not None else s.solve
         self.request = list(form_names)
         self.field_names = list(field_names)
         for f in form_names:
@@ -295,7 +296,7 @@ class Tracer(object):
         self.names.update(field_names)
         solved, exc = None, None
         try:
-            solved = s.solve(list(form_names), field_names=list(field_names)) if field_names else s.solve(list(form_names))
+            solved = solve(list(form_names), field_names=list(field_names)) if field_names else solve(list(form_names))
         except TracerBroken:
             raise
         except BaseException as e:    # noqa: every escaping exception is an abort of the solve
